@@ -72,7 +72,12 @@ func (pass *DisjunctionToType) processDisjunction(visitor *Visitor, schema *ast.
 		resolvedType, _ := schema.Resolve(disjunction.Branches[0])
 		scalarKind := resolvedType.AsScalar().ScalarKind
 
-		return ast.NewScalar(scalarKind, ast.Default(def.Default)), nil
+		opts := []ast.TypeOption{ast.Default(def.Default)}
+		if def.Nullable {
+			opts = append(opts, ast.Nullable())
+		}
+
+		return ast.NewScalar(scalarKind, opts...), nil
 	}
 
 	// type | otherType | something (| null)?
